@@ -37,6 +37,21 @@ var c04Paths = []c04Path{
 		err := gojson.NewEncoder(&buf).Encode(x)
 		return buf.Bytes(), err
 	}, func(b []byte, d any) error { return gojson.NewDecoder(bytes.NewReader(b)).Decode(d) }, func(x any) ([]byte, error) { return stdjson.Marshal(x) }},
+	{"Encoder(SetEscapeHTML(false))→Decoder", func(x any) ([]byte, error) {
+		var buf bytes.Buffer
+		e := gojson.NewEncoder(&buf)
+		e.SetEscapeHTML(false)
+		err := e.Encode(x)
+		return buf.Bytes(), err
+	}, func(b []byte, d any) error { return gojson.NewDecoder(bytes.NewReader(b)).Decode(d) }, func(x any) ([]byte, error) { return stdjson.Marshal(x) }},
+	{"MarshalWithOption(DisableHTMLEscape,DisableNormalizeUTF8)→Unmarshal", func(x any) ([]byte, error) {
+		return gojson.MarshalWithOption(x, gojson.DisableHTMLEscape(), gojson.DisableNormalizeUTF8())
+	}, func(b []byte, d any) error { return gojson.Unmarshal(b, d) }, func(x any) ([]byte, error) { return stdjson.Marshal(x) }},
+	{"MarshalIndentWithOption(UnorderedMap)→UnmarshalWithOption(FirstWin)", func(x any) ([]byte, error) {
+		return gojson.MarshalIndentWithOption(x, "", "\t", gojson.UnorderedMap())
+	}, func(b []byte, d any) error {
+		return gojson.UnmarshalWithOption(b, d, gojson.DecodeFieldPriorityFirstWin())
+	}, func(x any) ([]byte, error) { return stdjson.MarshalIndent(x, "", "\t") }},
 	{"MarshalNoEscape→UnmarshalNoEscape", func(x any) ([]byte, error) { return gojson.MarshalNoEscape(x) }, func(b []byte, d any) error { return gojson.UnmarshalNoEscape(b, d) }, func(x any) ([]byte, error) { return stdjson.Marshal(x) }},
 }
 
@@ -117,7 +132,7 @@ func c04Case(c *rt.Ctx, sub int, t reflect.Type, v reflect.Value, feat string) {
 // streamOnly: the Decoder path failed, but the very same bytes decode to the original value in
 // buffer mode — the defect is in the stream decoder (C09's subject), not in the round trip.
 func streamOnly(p *c04Path, b []byte, t reflect.Type, v reflect.Value) bool {
-	if p.name != "Encoder→Decoder" {
+	if !strings.HasSuffix(p.name, "→Decoder") {
 		return false
 	}
 	fresh := reflect.New(t)
